@@ -38,9 +38,9 @@ def run(ctx):
                 lambda c, t: w_alg.drive_forwards(c, t, pool=pool),
                 lambda c, t: w_alg.drive_composite(c, t, pool=pool),
                 lambda c, t: w_alg.drive_partial_retrieval(c, t, meta=pool)):
-        ctx.deadline = time.time() + sub
+        ctx.deadline = ctx.clock() + sub
         drv(ctx, ctx.tier)
-    ctx.deadline = time.time() + sub
+    ctx.deadline = ctx.clock() + sub
     w_alg.drive_mask(ctx, 'quick', pool=pool)
     ctx.deadline = saved
     # exhaustive sub-spaces announced by the drivers were cut by the sub-budgets
